@@ -28,7 +28,9 @@ RULE = (
     "immediately before effect i (thorough tier: also a torn variant of every file write: first half of the data, "
     "then the crash), followed by one un-faulted rerun of the same command.  Oracle after the rerun: exit 0; all "
     "pages error-free and index == recompiled files field by field; files equal those of the uninterrupted run "
-    "modulo the identity of freshly allocated ZIDs; no ZID on two notes; no original line lost.  evaluations = "
+    "modulo the identity of freshly allocated ZIDs; no ZID on two notes; no original line lost (at boundaries inside "
+    "the window of the known finding 'page-replacement-not-atomic' everything but the modify-date stamps is still "
+    "compared).  evaluations = "
     "crash runs (about one boundary in nine is repeated in a real process killed with os._exit(137) and rerun in a "
     "real process); non-trivial = distinct (scenario, boundary) whose crash left a state different from both the "
     "initial and the final one."
@@ -130,8 +132,15 @@ def canon_files(tree: dict, known_zids: set) -> dict:
     return {rel: _ZID.sub(sub, t) for rel, t in sorted(tree.items())}
 
 
+_STAMP = re.compile(r"(?m)^([-ox~<>]( P\d)? )\d{6} (\d{6}#)")
+
+
+def _no_stamps(tree: dict) -> dict:
+    return {rel: _STAMP.sub(r"\1\3", t) for rel, t in tree.items()}
+
+
 def crash_once(base: Path, box: Path, args, day, i, torn, reference, known_zids, orig_lines, rec, tag,
-               real=False, label_hint=None):
+               real=False, label_hint=None, ignore_stamps=False):
     """One crash point.  Returns (label, state_was_intermediate).  real=True: the command runs in a
     real process that is killed with os._exit(137) at the boundary, and the rerun is a real process too."""
     zdir = box / f"run-{tag}"
@@ -167,6 +176,11 @@ def crash_once(base: Path, box: Path, args, day, i, torn, reference, known_zids,
         if len(zs) != len(set(zs)) or None in zs:
             raise Violation(f"zid-shared:{_kind(label, torn)}", f"{what}: ZIDs after the rerun {sorted(map(str, zs))}")
         got = canon_files(tree, known_zids)
+        if ignore_stamps:
+            # boundary inside the window of known finding 'page-replacement-not-atomic' (its symptom:
+            # modify dates are not stamped): everything else is still demanded
+            got, reference = _no_stamps(got), _no_stamps(reference)
+            orig_lines = [ln for ln in orig_lines if not _STAMP.match(ln)]
         if got != reference:
             diff = [rel for rel in set(got) | set(reference) if got.get(rel) != reference.get(rel)]
             rel = sorted(diff)[0]
@@ -223,12 +237,13 @@ def check_scenario(case, rec: Rec) -> None:
                 variants.append(True)
             for torn in variants:
                 kcls = _kind(label, torn)
-                if known_boundary(effects, i, torn) & rec.open_keys:
-                    rec.info["crash_points_excluded_by_known_finding"] = rec.info.get("crash_points_excluded_by_known_finding", 0) + 1
-                    continue
-                one = dict(case, crash=i, torn=torn)
+                in_known = known_boundary(effects, i, torn) & rec.open_keys
+                if in_known:
+                    rec.info["crash_points_in_known_finding_window"] = rec.info.get("crash_points_in_known_finding_window", 0) + 1
+                one = dict(case, crash=i, torn=torn, ignore_stamps=bool(in_known))
                 try:
-                    got_label, mid = crash_once(base, box, args, day, i, torn, reference, known, orig_lines, rec, f"{i}{'t' if torn else ''}")
+                    got_label, mid = crash_once(base, box, args, day, i, torn, reference, known, orig_lines, rec,
+                                                f"{i}{'t' if torn else ''}", ignore_stamps=bool(in_known))
                 except Violation as v:
                     raise Violation(v.clause, v.detail + f"\n(effects of the uninterrupted run: {effects})", case=one, part="crash")
                 rec.sub_evals += 1
@@ -239,7 +254,7 @@ def check_scenario(case, rec: Rec) -> None:
                 if not torn and (i * 7 + len(effects)) % case.get("real_every", 9) == 0:
                     try:
                         crash_once(base, box, args, day, i, False, reference, known, orig_lines, rec, f"{i}real",
-                                   real=True, label_hint=label)
+                                   real=True, label_hint=label, ignore_stamps=bool(in_known))
                     except Violation as v:
                         raise Violation("real-kill:" + v.clause, v.detail, case=dict(one, real=True), part="crash")
                     rec.sub_evals += 1
@@ -286,7 +301,7 @@ def check_crash(case, rec: Rec) -> None:
                 old = t.decode().split("\n")
                 orig_lines += [a for a, b in zip(old, new) if a == b and a.strip()] if len(old) == len(new) else []
         crash_once(base, box, args, day, case["crash"], case.get("torn", False), reference, known, orig_lines, rec, "r",
-                   real=case.get("real", False), label_hint="?")
+                   real=case.get("real", False), label_hint="?", ignore_stamps=case.get("ignore_stamps", False))
     rec.nontrivial = True
 
 
@@ -295,5 +310,5 @@ def parts(tier):
     strat = (lambda: _scenario().map(lambda c: dict(c, real_every=23))) if quick else \
         (lambda: _scenario().map(lambda c: dict(c, torn=True, real_every=7)))
     return [HypPart(name="scenarios", check=check_scenario, strategy=strat,
-                    examples=3 if quick else 12, seconds=45 if quick else 900),
+                    examples=2 if quick else 12, seconds=40 if quick else 900),
             EnumPart(name="crash", check=check_crash, items=lambda: [], exhaustive=False)]
